@@ -33,7 +33,9 @@ USES_GENERATED = False
 EXTRA_THEOREM_MODULES = []
 
 # NIST_P256, BSI_P256, SECG_K256, SM2_P256, BN_P256, SM9_P256
-CURVES = {"base": [12, 13, 14, 15, 23, 24], "map-basic": [12, 13, 14, 15, 23, 24], "map-swift": [14, 23, 24, 12]}
+# p255: CURVE_25519 (Weierstrass form of Curve25519, cofactor 8, a*b != 0), TWEEDLEDUM (a = 0); p381: B12_P381 (11-isogeny, h_eff = 1 - x)
+CURVES = {"base": [12, 13, 14, 15, 23, 24], "map-basic": [12, 13, 14, 15, 23, 24], "map-swift": [14, 23, 24, 12],
+          "p255": [10, 11], "p381": [30]}
 MSG_LENS = [0, 1, 31, 32, 33, 55, 56, 63, 64, 65, 127, 128, 129, 300]
 SOURCES = ("oracle.c", "ops_bn.c", "ops_map.c")
 DEFS = ("ORACLE_EXTRA1=ops_map",)
@@ -252,7 +254,7 @@ def streams(ctx, scale=1):
             if cv is None:
                 continue
             block = []
-            if cfg == "base":
+            if cfg in ("base", "p255", "p381"):
                 block += msg_lines(ctx.rng, cv, ["map", "basic", "sswum", "swift"], 1 if quick else 4)
                 block += rnd_sswum(ctx.rng, cv, n)
             elif cfg == "map-basic":
